@@ -21,6 +21,7 @@ type Spec struct {
 	Assumptions []string  `json:"assumptions"`
 	Outside     []string  `json:"outside_bounds"`
 	Explanation string    `json:"explanation"`
+	Probes      []string  `json:"probes"` // native functions run once on the real build; their VERIF-PROBE k=v lines become bounds
 }
 
 type RunSpec struct {
@@ -175,7 +176,36 @@ func checkMain(args []string) int {
 		}
 	}()
 	validated, validationTried := 0, 0
+	probed := map[string]int64{}
+	if len(spec.Probes) > 0 {
+		rep, err = newNativeReplayer(&spec)
+		if err != nil {
+			fmt.Println("UNDECIDED: cannot build the native probe:", err)
+			return 2
+		}
+		for _, pe := range spec.Probes {
+			out := rep.run(pe, nil, nil, 30*time.Second)
+			if !out.done {
+				fmt.Println("UNDECIDED: native probe failed:", pe, out.summary())
+				return 2
+			}
+			for k, v := range out.probes {
+				probed[k] = v
+			}
+		}
+		fmt.Printf("native probes: %d values read from the real build\n", len(probed))
+	}
 	for _, rs := range spec.Runs {
+		if len(probed) > 0 {
+			nb := map[string]int64{}
+			for k, v := range probed {
+				nb[k] = v
+			}
+			for k, v := range rs.Bounds {
+				nb[k] = v
+			}
+			rs.Bounds = nb
+		}
 		if !inTier(rs, tier) || (only != "" && rs.Name != only && rs.Entry != only) {
 			continue
 		}
